@@ -32,12 +32,13 @@ type engineSpec struct {
 
 var engines = map[string]engineSpec{
 	"e1": {Name: "e1", Gen: GenE1, Run: RunE1},
+	"e2": {Name: "e2", Gen: GenE2, Run: RunE2},
 }
 
 // propEngines lists the engines whose runs decide a property, with weights.
 var propEngines = map[string][]string{
-	"C01": {"e1"}, "C02": {"e1"}, "C05": {"e1"}, "C06": {"e1"}, "C07": {"e1"}, "C08": {"e1"}, "C09": {"e1"},
-	"C11": {"e1"}, "C17": {"e1"}, "C18": {"e1"},
+	"C01": {"e1"}, "C02": {"e1", "e2"}, "C03": {"e2"}, "C04": {"e2"}, "C05": {"e1"}, "C06": {"e1"}, "C07": {"e1"},
+	"C08": {"e1", "e2"}, "C09": {"e1"}, "C11": {"e1"}, "C17": {"e1"}, "C18": {"e1", "e2"},
 }
 
 type ViolationRec struct {
@@ -51,27 +52,29 @@ type ViolationRec struct {
 }
 
 type WorkerOut struct {
-	Prop       string            `json:"prop"`
-	Runs       int               `json:"runs"`
-	SeedFirst  uint64            `json:"seed_first"`
-	SeedLast   uint64            `json:"seed_last"`
-	Violations []ViolationRec    `json:"violations"`
-	Foreign    map[string]int    `json:"foreign"` // violations of other properties seen (run cut short)
-	ForeignEx  map[string]string `json:"foreign_examples"`
-	Troubles   []string          `json:"troubles"`
-	Cells      map[string]int    `json:"cells"`
-	Probes     map[string]int    `json:"probes"`
-	Faults     map[string]int    `json:"faults"`
-	Distinct   []string          `json:"distinct"`
-	NonTrivial []string          `json:"nontrivial"`
-	Samples    []any             `json:"samples"`
-	SimSeconds float64           `json:"sim_seconds"`
-	Ops        int               `json:"ops"`
-	Steps      int               `json:"sched_steps"`
-	Preempt    int               `json:"preemptions"`
-	WallS      float64           `json:"wall_s"`
-	ByEngine   map[string]int    `json:"by_engine"`
-	Done       bool              `json:"done"`
+	Prop          string            `json:"prop"`
+	Runs          int               `json:"runs"`
+	SeedFirst     uint64            `json:"seed_first"`
+	SeedLast      uint64            `json:"seed_last"`
+	Violations    []ViolationRec    `json:"violations"`
+	Foreign       map[string]int    `json:"foreign"` // violations of other properties seen (run cut short)
+	ForeignEx     map[string]string `json:"foreign_examples"`
+	Troubles      []string          `json:"troubles"`
+	Cells         map[string]int    `json:"cells"`
+	Probes        map[string]int    `json:"probes"`
+	Faults        map[string]int    `json:"faults"`
+	Distinct      []string          `json:"distinct"`
+	NonTrivial    []string          `json:"nontrivial"`
+	Samples       []any             `json:"samples"`
+	SimSeconds    float64           `json:"sim_seconds"`
+	Ops           int               `json:"ops"`
+	Steps         int               `json:"sched_steps"`
+	Preempt       int               `json:"preemptions"`
+	WallS         float64           `json:"wall_s"`
+	ByEngine      map[string]int    `json:"by_engine"`
+	Done          bool              `json:"done"`
+	KnownSeen     map[string]int    `json:"known_seen"`
+	KnownExamples []ViolationRec    `json:"known_examples"`
 }
 
 func envInt(name string, def int64) int64 {
@@ -122,7 +125,13 @@ func TestWorker(t *testing.T) {
 	if len(engs) == 0 {
 		t.Fatalf("no engine for %s", prop)
 	}
-	out := &WorkerOut{Prop: prop, Foreign: map[string]int{}, ForeignEx: map[string]string{}, Cells: map[string]int{}, Probes: map[string]int{}, Faults: map[string]int{}, ByEngine: map[string]int{}}
+	knownOracles := map[string]bool{}
+	for _, o := range strings.Split(os.Getenv("VERIF_KNOWN_ORACLES"), ",") {
+		if o != "" {
+			knownOracles[o] = true
+		}
+	}
+	out := &WorkerOut{KnownSeen: map[string]int{}, Prop: prop, Foreign: map[string]int{}, ForeignEx: map[string]string{}, Cells: map[string]int{}, Probes: map[string]int{}, Faults: map[string]int{}, ByEngine: map[string]int{}}
 	distinct := map[string]bool{}
 	nontrivial := map[string]bool{}
 	start := time.Now()
@@ -178,7 +187,14 @@ func TestWorker(t *testing.T) {
 			continue
 		}
 		if v := res.Violation; v != nil {
-			if v.Has(prop) {
+			if v.Has(prop) && knownOracles[v.Oracle] {
+				// a recorded, unrepaired defect: count it, keep one minimised example, carry on
+				out.KnownSeen[v.Oracle]++
+				if out.KnownSeen[v.Oracle] == 1 {
+					rec := minimiseAndRecord(t, prop, eng, prog, v, seed, replayDir)
+					out.KnownExamples = append(out.KnownExamples, rec)
+				}
+			} else if v.Has(prop) {
 				rec := minimiseAndRecord(t, prop, eng, prog, v, seed, replayDir)
 				out.Violations = append(out.Violations, rec)
 				if len(out.Violations) >= 12 {
@@ -243,7 +259,7 @@ func cloneProgram(p *Program) *Program {
 }
 
 func minimiseAndRecord(t *testing.T, prop string, eng engineSpec, prog *Program, v *Violation, seed uint64, dir string) ViolationRec {
-	rec := ViolationRec{Seed: seed, Engine: eng.Name, Violation: v, OrigOps: len(prog.Ops)}
+	rec := ViolationRec{Seed: seed, Engine: eng.Name, Violation: v, OrigOps: progSize(prog)}
 	best := cloneProgram(prog)
 	bestV := v
 	execs := 0
@@ -259,35 +275,100 @@ func minimiseAndRecord(t *testing.T, prop string, eng engineSpec, prog *Program,
 		}
 		return false
 	}
-	// truncate after the violating step
-	if bestV.Step+1 < len(best.Ops) {
-		c := cloneProgram(best)
-		c.Ops = c.Ops[:bestV.Step+1]
-		try(c)
-	}
-	// delta debugging over operations
-	for chunk := len(best.Ops) / 2; chunk >= 1; chunk /= 2 {
-		for i := 0; i+chunk <= len(best.Ops); {
+	if best.Engine == "e2" {
+		// concurrent programs: drop tasks, operations, setup steps, feeds, handles; the schedule is
+		// re-derived from the same schedule seed, and a candidate is kept only if the same oracle fires
+		progress := true
+		for progress && execs < 300 {
+			progress = false
+			for ti := 0; ti < len(best.Tasks) && len(best.Tasks) > 1; ti++ {
+				c := cloneProgram(best)
+				c.Tasks = append(append([][]Op(nil), c.Tasks[:ti]...), c.Tasks[ti+1:]...)
+				if try(c) {
+					progress = true
+					ti--
+				}
+			}
+			for ti := 0; ti < len(best.Tasks); ti++ {
+				for oi := 0; oi < len(best.Tasks[ti]); oi++ {
+					c := cloneProgram(best)
+					c.Tasks[ti] = append(append([]Op(nil), c.Tasks[ti][:oi]...), c.Tasks[ti][oi+1:]...)
+					if try(c) {
+						progress = true
+						oi--
+					}
+				}
+			}
+			for si := 0; si < len(best.Setup); si++ {
+				c := cloneProgram(best)
+				c.Setup = append(append([]Op(nil), c.Setup[:si]...), c.Setup[si+1:]...)
+				if try(c) {
+					progress = true
+					si--
+				}
+			}
+			for fi := 0; fi < len(best.Feeds); fi++ {
+				c := cloneProgram(best)
+				c.Feeds = append(append([]FeedSpec(nil), c.Feeds[:fi]...), c.Feeds[fi+1:]...)
+				if try(c) {
+					progress = true
+					fi--
+				}
+			}
+			if best.NHandles > 1 {
+				c := cloneProgram(best)
+				c.NHandles = 1
+				for ti := range c.Tasks {
+					for oi := range c.Tasks[ti] {
+						c.Tasks[ti][oi].Handle = 0
+					}
+				}
+				for fi := range c.Feeds {
+					c.Feeds[fi].Handle = 0
+				}
+				if try(c) {
+					progress = true
+				}
+			}
+			if best.Strategy != StratRTC || best.StratArg > 3 {
+				c := cloneProgram(best)
+				c.Strategy, c.StratArg = StratRTC, 3 // fewest preemptions
+				if try(c) {
+					progress = true
+				}
+			}
+		}
+	} else {
+		// truncate after the violating step
+		if bestV.Step+1 < len(best.Ops) {
 			c := cloneProgram(best)
-			c.Ops = append(append([]Op(nil), c.Ops[:i]...), c.Ops[i+chunk:]...)
-			if len(c.Ops) > 0 && try(c) {
-				continue
-			}
-			i += chunk
-		}
-	}
-	// simplify configuration
-	if best.TwoBuckets {
-		c := cloneProgram(best)
-		c.TwoBuckets = false
-		ok := true
-		for _, o := range c.Ops {
-			if o.Handle == 9 {
-				ok = false
-			}
-		}
-		if ok {
+			c.Ops = c.Ops[:bestV.Step+1]
 			try(c)
+		}
+		// delta debugging over operations
+		for chunk := len(best.Ops) / 2; chunk >= 1; chunk /= 2 {
+			for i := 0; i+chunk <= len(best.Ops); {
+				c := cloneProgram(best)
+				c.Ops = append(append([]Op(nil), c.Ops[:i]...), c.Ops[i+chunk:]...)
+				if len(c.Ops) > 0 && try(c) {
+					continue
+				}
+				i += chunk
+			}
+		}
+		// simplify configuration
+		if best.TwoBuckets {
+			c := cloneProgram(best)
+			c.TwoBuckets = false
+			ok := true
+			for _, o := range c.Ops {
+				if o.Handle == 9 {
+					ok = false
+				}
+			}
+			if ok {
+				try(c)
+			}
 		}
 	}
 	if best.OnDisk {
@@ -295,7 +376,7 @@ func minimiseAndRecord(t *testing.T, prop string, eng engineSpec, prog *Program,
 		c.OnDisk = false
 		try(c)
 	}
-	rec.MinOps, rec.Execs, rec.Violation = len(best.Ops), execs, bestV
+	rec.MinOps, rec.Execs, rec.Violation = progSize(best), execs, bestV
 	// final run with the trace, written as the replay file
 	final := eng.Run(t, cloneProgram(best), true)
 	rf := ReplayFile{Property: prop, Engine: eng.Name, Seed: seed, Program: best, Violation: final.Violation, Trace: final.Log,
@@ -346,4 +427,12 @@ func TestReplay(t *testing.T) {
 	} else {
 		fmt.Printf("REPLAY reproduced=false (no violation) trouble=%q\n", res.Trouble)
 	}
+}
+
+func progSize(p *Program) int {
+	n := len(p.Ops) + len(p.Setup)
+	for _, t := range p.Tasks {
+		n += len(t)
+	}
+	return n
 }
